@@ -1120,6 +1120,7 @@ pub fn run_consolidate(args: &Args, rep: &mut Report) {
         };
         let dir = tempfile::tempdir().unwrap();
         let mut models = Vec::new();
+        let mut n_reexported = 0u64;
         for i in 0..n_shards {
             let m = match rng.below(8) {
                 0 => Model::default(),
@@ -1132,8 +1133,22 @@ pub fn run_consolidate(args: &Args, rep: &mut Report) {
                     subset(&mut rng, &u, fr)
                 },
             };
-            if write_model_shard(dir.path(), &m).is_err() {
+            let Ok(written) = write_model_shard(dir.path(), &m) else {
                 continue;
+            };
+            // some shards are present in a re-exported form instead (unkeyed, finite validity, file records and lookup
+            // tables optional - the compact variants every reader accepts); the records to preserve are whatever the
+            // directory holds before consolidation
+            if rng.chance(1, 3) {
+                if let Ok(sf) = MDBShardFile::load_from_file(&written) {
+                    let exported = sf.export_as_keyed_shard(dir.path(), MerkleHash::default(), Duration::from_secs(100_000), rng.chance(1, 2), rng.chance(1, 3), rng.chance(1, 3));
+                    if let Ok(e) = exported {
+                        if e.path != written && rng.chance(2, 3) {
+                            let _ = std::fs::remove_file(&written);
+                        }
+                        n_reexported += 1;
+                    }
+                }
             }
             let _ = i;
             models.push(m);
@@ -1233,6 +1248,7 @@ pub fn run_consolidate(args: &Args, rep: &mut Report) {
         match res {
             Ok(Ok((nb, na))) => {
                 rep.count(P, "consolidations", 1);
+                rep.count(P, "consolidation_inputs_in_reexported_form", n_reexported);
                 if na < nb {
                     rep.count(P, "consolidations_that_merged", 1);
                 }
